@@ -208,6 +208,86 @@ fn model_step(m: &mut Model, st: &Step) -> (String, Vec<u64>, Vec<i32>, usize) {
     (outcome, wakes, drained, fds)
 }
 
+// ---------------------------------------------------------------------------------------------
+// Schedules: add_signal of the same signal from two threads (through clones of one handle) while it
+// is being delivered; afterwards exactly one registration exists, and none once everything is gone.
+
+mod sched_part {
+    use crate::props::reg::{fresh_registry, Disp, S1, S2};
+    use crate::sched::{self, Exec, Opts, Scenario, ThreadSpec};
+    use signal_hook::iterator::{Handle, Signals};
+    use std::sync::{Arc, Mutex};
+
+    pub struct St {
+        inst: Mutex<Option<Signals>>,
+        handle: Handle,
+    }
+
+    fn wakes_of_probe(e: &mut Exec, sig: i32) -> usize {
+        let before = e.log.iter().filter(|x| x.tag == "wake").count();
+        sched::setup_raise(sig);
+        let e = sched::exec();
+        e.log.iter().filter(|x| x.tag == "wake").count() - before
+    }
+
+    pub fn build(name: &'static str, drop_instance_concurrently: bool) -> Scenario<Arc<St>> {
+        let setup = || {
+            fresh_registry(&[(S1, Disp::Ignore), (S2, Disp::Ignore)]);
+            let s = Signals::new(&[S1]).expect("new");
+            let h = s.handle();
+            Arc::new(St { inst: Mutex::new(Some(s)), handle: h })
+        };
+        let adder = |name: &'static str| ThreadSpec {
+            name,
+            body: Box::new(move |s: &Arc<St>| {
+                let h = s.handle.clone();
+                h.add_signal(S2).expect("add_signal");
+            }),
+            nest_signals: vec![],
+            max_nest: 0,
+        };
+        let mut threads = vec![adder("A1"), adder("A2")];
+        threads.push(ThreadSpec {
+            name: "D",
+            body: Box::new(move |s: &Arc<St>| {
+                sched::raise(S2);
+                if drop_instance_concurrently {
+                    let i = s.inst.lock().unwrap().take();
+                    drop(i);
+                }
+            }),
+            nest_signals: vec![],
+            max_nest: 0,
+        });
+        Scenario {
+            name: name.to_string(),
+            opts: Opts { stale_reads: false, stale_depth: 2, max_spurious: 0, horizon: 20_000, log_ops: false, log_handler_ops: false, reduce: true, no_discipline: false },
+            signals: vec![S1, S2],
+            setup: Box::new(setup),
+            threads,
+            finish: Box::new(|s, e| {
+                if !e.panics.is_empty() {
+                    return Err(format!("C12: a thread panicked: {:?}", e.panics));
+                }
+                let w = wakes_of_probe(e, S2);
+                if w != 1 {
+                    return Err(format!("C12: after two concurrent add_signal calls for the same signal a delivery of it makes {} wake attempts (exactly one registration expected: re-adding is a no-op)", w));
+                }
+                let s = Arc::try_unwrap(s).map_err(|_| "engine: state shared".to_string())?;
+                drop(s);
+                let e = sched::exec();
+                let w = wakes_of_probe(e, S2);
+                let w1 = wakes_of_probe(sched::exec(), S1);
+                if w != 0 || w1 != 0 {
+                    return Err(format!("C12: after the instance and all its handles are gone deliveries still make {} / {} wake attempts (a registration it made was not removed)", w1, w));
+                }
+                Ok(sched::exec().log.iter().filter(|x| x.tag == "wake").count() as u64)
+            }),
+            monitor: None,
+        }
+    }
+}
+
 pub fn run(tier: Tier) -> BResult {
     let depth = if tier == Tier::Quick { 3 } else { 4 };
     let bads = [libc::SIGKILL, -1, 200, 100];
@@ -331,17 +411,47 @@ pub fn run(tier: Tier) -> BResult {
             violations.push(BViolation { message: format!("C12: {} {:?}: {}", exn[*ex], h, mm), case });
         }
     }
+    // schedules (engine A)
+    let mut a_states = 0u64;
+    let mut a_trans = 0u64;
+    let mut a_execs = 0u64;
+    let mut a_caps = Vec::new();
+    for (name, conc_drop) in [("two_threads_add_same_signal", false), ("two_threads_add_same_signal_instance_dropped", true)] {
+        let sc = sched_part::build(name, conc_drop);
+        let cfg = crate::explore::Config { property: "C12".into(), bound: Some(if tier == Tier::Quick { 2 } else { 3 }), max_wall: Duration::from_secs(if tier == Tier::Quick { 25 } else { 300 }), workers: crate::props::workers_for(4), hang_secs: 15 };
+        match crate::explore::explore(&sc, &cfg) {
+            Ok(sum) => {
+                eprintln!("[C12] schedules {:<44} bound={:?} execs={} states={} steps={} distinct={}{}", name, cfg.bound, sum.stats.executions, sum.stats.states, sum.stats.transitions, sum.stats.digests.len(), if sum.stats.capped { " CAPPED" } else { "" });
+                a_states += sum.stats.states;
+                a_trans += sum.stats.transitions;
+                a_execs += sum.stats.executions;
+                if sum.stats.capped {
+                    a_caps.push(json!({"scenario": name, "cap": "wall-clock"}));
+                }
+                *classes.entry(format!("schedules:{}", name)).or_insert(0) += sum.stats.executions;
+                for v in sum.violations {
+                    if crate::explore::class_of(&v.message) == "engine" {
+                        violations.push(BViolation { message: format!("engine: {}", v.message), case: json!({"scenario": name}) });
+                    } else {
+                        violations.push(BViolation { message: format!("{} [schedule replay: {}]", v.message, v.replay), case: json!({"scenario": name, "engine": "sigsched", "choices": v.choices}) });
+                    }
+                }
+            }
+            Err(er) => violations.push(BViolation { message: format!("engine: {}", er), case: json!({"scenario": name}) }),
+        }
+    }
+    let exhaustive = a_caps.is_empty();
     BResult {
-        states: distinct.len() as u64,
-        transitions,
-        evaluations: cells.len() as u64,
+        states: distinct.len() as u64 + a_states,
+        transitions: transitions + a_trans,
+        evaluations: cells.len() as u64 + a_execs,
         distinct: distinct.len() as u64,
         samples,
         per_class: json!(classes),
         violations,
-        exhaustive: true,
-        caps: vec![],
-        rule: format!("every history new(list) + up to {} operations over {{add_signal(ok new / already watched / forbidden / negative / too large / OS-refused 100 / 0), clone handle, drop handle, drop instance}} from two successful constructors, 12 failing constructor lists (rejected number first / middle / last), and add_signal(x), add_signal(x) again for every x in [-2,130]+MIN/MAX; x 3 exfiltrators; a probe after every step; reference model = {{instance alive, handle count, watched set}}; distinct = distinct model states reached", depth),
+        exhaustive,
+        caps: a_caps,
+        rule: format!("schedules: two threads add the same signal through clones of one handle while it is delivered (and the instance is dropped), every choice vector within the deviation bound on the real code; histories: every history new(list) + up to {} operations over {{add_signal(ok new / already watched / forbidden / negative / too large / OS-refused 100 / 0), clone handle, drop handle, drop instance}} from two successful constructors, 12 failing constructor lists (rejected number first / middle / last), and add_signal(x), add_signal(x) again for every x in [-2,130]+MIN/MAX; x 3 exfiltrators; a probe after every step; reference model = {{instance alive, handle count, watched set}}; distinct = distinct model states reached", depth),
         assumptions: vec!["wake attempts per delivery counted through the cfg(sighook_verif) scheduling point in pipe::wake".into(), "open descriptors counted through /proc/self/fd".into()],
     }
 }
